@@ -92,7 +92,9 @@ def balanced_outward(source: str, pos: int) -> list:
                 push(result, (left[0], end))
             if left:
                 release_range(pool, left)
-            if not stack:
+            if not stack and end > pos:
+                # Closed a top-level section which is at or past given location:
+                # nothing further can contain it
                 return False
         elif token_type == TokenType.PropertyName:
             if prop[0]:
